@@ -28,6 +28,14 @@ def parseTerm {α : Type} (f : String → Option α) : List String → Option (C
       some ⟨← f c, ← p.toNat?, ← f a, .cos (← f cb) (← f sb) (← f cc) (← f sc)⟩
   | [c, p, a, "sin", cb, sb, cc, sc] => do
       some ⟨← f c, ← p.toNat?, ← f a, .sin (← f cb) (← f sb) (← f cc) (← f sc)⟩
+  | [c, p, a, "gcos", g, cb, sb, cc, sc] => do
+      some ⟨← f c, ← p.toNat?, ← f a, .gated false false (← g.toInt?) (← f cb) (← f sb) (← f cc) (← f sc)⟩
+  | [c, p, a, "gsin", g, cb, sb, cc, sc] => do
+      some ⟨← f c, ← p.toNat?, ← f a, .gated true false (← g.toInt?) (← f cb) (← f sb) (← f cc) (← f sc)⟩
+  | [c, p, a, "icos", g, cb, sb, cc, sc] => do
+      some ⟨← f c, ← p.toNat?, ← f a, .gated false true (← g.toInt?) (← f cb) (← f sb) (← f cc) (← f sc)⟩
+  | [c, p, a, "isin", g, cb, sb, cc, sc] => do
+      some ⟨← f c, ← p.toNat?, ← f a, .gated true true (← g.toInt?) (← f cb) (← f sb) (← f cc) (← f sc)⟩
   | _ => none
 
 def parseSig {α : Type} (f : String → Option α) (toks : List String) : Option (List (CTerm α)) :=
@@ -183,6 +191,18 @@ def handle (toks : List String) : Option String :=
         | none => "ok"
         | some j => s!"fail {lo + Int.ofNat j}"
       | _, _, _, _, _, _ => "bad-op"
+  -- spec: the defining bilateral DTFT sum  Σ_{n=lo}^{lo+len-1} x[n] q^n  in F_P  (q = image of e^{-jΩ})
+  | "dtft.spec" :: lo :: len :: q :: "|" :: rest => some <| Id.run do
+      match lo.toInt?, len.toNat?, Fp.parse q, parseSig Fp.parse rest with
+      | some lo, some len, some q, some ts => toString (dtftSum (sigVal ts) q lo len)
+      | _, _, _, _ => "bad-op"
+  -- model: the z-transform closed form evaluated on the unit circle, z = image of e^{jΩ} in F_P
+  | "dtft.model" :: z :: "|" :: rest => some <| Id.run do
+      match Fp.parse z, parseSig Fp.parse rest with
+      | some z, some ts =>
+        let r := ztSig ts
+        if peval r.den (1 / z) = 0 then "undef" else toString (r.eval z)
+      | _, _ => "bad-op"
   | _ => none
 
 end Lcapy.Driver.C13
